@@ -871,7 +871,9 @@ class Builder:
                 base = self.canon(e, pf, _depth + 1)
                 if base is not None:
                     return self.norm_self(base + rest, fr)
-            return ('%param', head) + rest
+            if how == 'default':
+                return ('%default', head) + rest
+            return ('%arg', head) + rest
         if head in f.params:
             if fr.parent is None:
                 return ('%param', head) + rest
@@ -997,6 +999,21 @@ class Builder:
                 return None
             if len(dn) == 3:
                 t = attr_type(prog, fr.cls, dn[1])
+                if t is None:
+                    # ambiguous over the class, but assigned from one
+                    # constructor in this very function
+                    cands = set()
+                    for n in walk_local(f.node):
+                        if isinstance(n, ast.Assign) and any(
+                                dotted(x) == (head, dn[1])
+                                for x in n.targets) and isinstance(
+                                    n.value, ast.Call):
+                            cn = dotted(n.value.func)
+                            o = prog.resolve_dotted(f.module, cn) if cn \
+                                else None
+                            cands.add(o if isinstance(o, ClassInfo) else None)
+                    if len(cands) == 1 and None not in cands:
+                        t = cands.pop()
                 if isinstance(t, ClassInfo):
                     r = prog.find_method(t, dn[2])
                     if r is not None:
